@@ -34,7 +34,7 @@ type node struct {
 	pos        string // static relative absolute
 	z          string // auto or integer
 	float      bool
-	op, tr, ov bool // opacity < 1, transform, overflow hidden
+	op, tr, ov bool // opacity, transform, overflow hidden
 	outline    bool
 	children   []*node
 	// inline content of a box without block children: text runs, inline-blocks, floats inside the line, spans
@@ -104,13 +104,39 @@ func genTree(r *rng.R, budget *int, depth int) *node {
 	n.outline = r.P(1, 2)
 	if depth < 3 {
 		for k := r.Range(0, 3); k > 0 && *budget > 0; k-- {
-			n.children = append(n.children, genTree(r, budget, depth+1))
+			if r.P(1, 6) {
+				n.children = append(n.children, genTable(r, budget, depth+1))
+			} else {
+				n.children = append(n.children, genTree(r, budget, depth+1))
+			}
 		}
 	}
 	if len(n.children) == 0 {
 		n.items = genItems(r, budget, depth+1)
 	}
 	return n
+}
+
+// genTable: a table (rows of cells with unique background / border colours); a cell holds inline content or
+// blocks.  The boxes that follow the table in the same context have their text painted after the cells' text.
+func genTable(r *rng.R, budget *int, depth int) *node {
+	*budget--
+	t := &node{kind: "table", pos: "static", z: "auto"}
+	for i, rows := 0, r.Range(1, 2); i < rows; i++ {
+		row := &node{kind: "row", pos: "static", z: "auto"}
+		for j, cells := 0, r.Range(1, 3); j < cells; j++ {
+			*budget--
+			c := &node{kind: "cell", pos: "static", z: "auto", outline: r.P(1, 4)}
+			if depth < 3 && *budget > 0 && r.P(1, 4) {
+				c.children = append(c.children, genTree(r, budget, depth+1))
+			} else {
+				c.items = genItems(r, budget, depth+1)
+			}
+			row.children = append(row.children, c)
+		}
+		t.children = append(t.children, row)
+	}
+	return t
 }
 
 // genWide: 13-40 sibling stacking contexts with tied, unsorted z-index values (sort stability), some with a
@@ -163,7 +189,7 @@ func (n *node) itemHTML(b *strings.Builder) {
 		fmt.Fprintf(b, "z-index:%s;", n.z)
 	}
 	if n.op {
-		b.WriteString("opacity:0.5;")
+		fmt.Fprintf(b, "opacity:%s;", n.opacity())
 	}
 	if n.tr {
 		fmt.Fprintf(b, "transform:translate(%dpx,0);", 100+n.id)
@@ -181,11 +207,47 @@ func (n *node) itemHTML(b *strings.Builder) {
 	b.WriteString("</span> ")
 }
 
+// opacity: the generated value, chosen from the box id (0, a tiny value, 0.5, 0.999 make a group; 1 makes none)
+func (n *node) opacity() string {
+	return []string{"0.5", "0", "0.999", "0.001", "0.5", "1", "0", "0.25"}[n.id%8]
+}
+
 func bgCol(id int) string { return fmt.Sprintf("#%02x64c8", id) }
 func bdCol(id int) string { return fmt.Sprintf("#%02xc864", id) }
 func olCol(id int) string { return fmt.Sprintf("#%02x32fa", id) }
 
 func (n *node) html(b *strings.Builder) {
+	switch n.kind {
+	case "table":
+		// a negative top margin makes the table overlap what precedes it (irrelevant for the order of the calls)
+		fmt.Fprintf(b, `<table id="b%d" style="border-collapse:separate;border-spacing:1px;margin-top:-%dpx">`, n.id, n.id%4)
+		for _, c := range n.children {
+			c.html(b)
+		}
+		b.WriteString("</table>")
+		return
+	case "row":
+		fmt.Fprintf(b, `<tr id="b%d">`, n.id)
+		for _, c := range n.children {
+			c.html(b)
+		}
+		b.WriteString("</tr>")
+		return
+	case "cell":
+		fmt.Fprintf(b, `<td id="b%d" style="background:%s;border:2px solid %s;`, n.id, bgCol(n.id), bdCol(n.id))
+		if n.outline {
+			fmt.Fprintf(b, "outline:1px solid %s;", olCol(n.id))
+		}
+		b.WriteString(`">`)
+		for _, c := range n.items {
+			c.itemHTML(b)
+		}
+		for _, c := range n.children {
+			c.html(b)
+		}
+		b.WriteString("</td>")
+		return
+	}
 	fmt.Fprintf(b, `<div id="b%d" style="background:%s;border:2px solid %s;margin:2px;min-height:6px;`, n.id, bgCol(n.id), bdCol(n.id))
 	if n.pos != "static" {
 		fmt.Fprintf(b, "position:%s;left:%dpx;top:%dpx;", n.pos, 3+n.id, 2+n.id)
@@ -200,7 +262,7 @@ func (n *node) html(b *strings.Builder) {
 		b.WriteString("float:left;width:50px;")
 	}
 	if n.op {
-		b.WriteString("opacity:0.5;")
+		fmt.Fprintf(b, "opacity:%s;", n.opacity())
 	}
 	if n.tr {
 		// a translation that identifies the box in the trace
@@ -242,6 +304,12 @@ func count(n *node) int {
 
 func features(n *node, f map[string]bool) {
 	switch n.kind {
+	case "table":
+		f["table"] = true
+	case "cell":
+		if len(n.children) > 0 {
+			f["cell-with-blocks"] = true
+		}
 	case "iblock":
 		f["inline-block"] = true
 	case "ifloat":
@@ -275,6 +343,7 @@ func features(n *node, f map[string]bool) {
 	}
 	if n.op {
 		f["opacity"] = true
+		f["opacity="+n.opacity()] = true
 	}
 	if n.tr {
 		f["transform"] = true
@@ -328,6 +397,7 @@ func abstract(b bo.Box, parentEl interface{}) sx.X {
 	if n := len(f.Children); n > 0 && bo.LineT.IsInstance(f.Children[n-1]) {
 		hasLines = true
 	}
+	_, isTable := b.(bo.TableBoxITF)
 	var ch []sx.X
 	if bo.ParentT.IsInstance(b) {
 		for _, c := range f.Children {
@@ -337,7 +407,7 @@ func abstract(b bo.Box, parentEl interface{}) sx.X {
 	return sx.L(sx.A("b"), sx.I(id), sx.B(st.GetPosition().String != "static"), z, sx.B(f.IsFloated()),
 		sx.B(st.GetOpacity() < 1), sx.B(len(st.GetTransform()) != 0), sx.B(st.GetOverflow() != "visible"),
 		sx.B(bo.BlockLevelT.IsInstance(b)), sx.B(bo.InlineBlockT.IsInstance(b) || bo.InlineFlexT.IsInstance(b) || bo.InlineGridT.IsInstance(b)),
-		sx.B(hasLines), sx.B(isText), sx.L(ch...))
+		sx.B(hasLines), sx.B(isText), sx.B(bo.TableCellT.IsInstance(b)), sx.B(isTable), sx.L(ch...))
 }
 
 // implOrder maps what reaches the backend back to (box, layer) events:
@@ -483,8 +553,9 @@ func implOrder(rec *render.Rec) []string {
 func filterEvs(x sx.X, outlined map[string]bool) []string {
 	var out []string
 	for _, e := range x.Xs {
-		if e.Xs[0].S == "0" || (e.Xs[1].S == "ol" && !outlined[e.Xs[0].S]) {
-			continue
+		if e.Xs[0].S == "0" || (e.Xs[1].S == "ol" && !outlined[e.Xs[0].S]) ||
+			((e.Xs[1].S == "bg" || e.Xs[1].S == "bd") && !outlined["bg"+e.Xs[0].S]) {
+			continue // nothing visible to compare: no outline / no background and border (table wrapper, rows)
 		}
 		out = append(out, e.String())
 	}
@@ -497,10 +568,15 @@ func outlinedBoxes(b bo.Box, acc map[string]bool) {
 		b = ap.AliasBox
 	}
 	f := b.Box()
-	if f.Element != nil && f.PseudoType == "" && f.Style.GetOutlineWidth().Value != 0 && f.Style.GetOutlineStyle() != "none" {
+	if f.Element != nil && f.PseudoType == "" {
 		for _, a := range f.Element.Attr {
 			if a.Key == "id" && strings.HasPrefix(a.Val, "b") {
-				acc[a.Val[1:]] = true
+				if f.Style.GetOutlineWidth().Value != 0 && f.Style.GetOutlineStyle() != "none" {
+					acc[a.Val[1:]] = true
+				}
+				if f.Background != nil && f.BorderTopWidth.V() != 0 {
+					acc["bg"+a.Val[1:]] = true // the box has the generated background and border
+				}
 			}
 		}
 	}
@@ -526,7 +602,7 @@ func Run(tier string, seed uint64, modelPath, repo string, out *res.Result) erro
 	if tier == "smoke" {
 		n = 300
 	}
-	out.Rule = "5/6 random trees of <=9 block boxes (depth<=4) x position{static,relative,absolute} x z-index{auto,-2,-1,0,1,1,2} x float x subsets of {opacity,transform,overflow} x outline, leaf boxes with inline content (text runs, inline-blocks, floats inside the line, plain and positioned spans, nested), 1/6 wide documents of 13-40 sibling positioned contexts with tied unsorted z-index values (optionally under a common context); unique background/border/outline colours, texts and translations; " +
+	out.Rule = "5/6 random trees of <=9 block boxes (depth<=4) x position{static,relative,absolute} x z-index{auto,-2,-1,0,1,1,2} x float x subsets of {opacity,transform,overflow} x outline, tables (rows of coloured cells holding inline content or blocks) among the blocks, opacity in {0, 0.001, 0.25, 0.5, 0.999, 1}, leaf boxes with inline content (text runs, inline-blocks, floats inside the line, plain and positioned spans, nested), 1/6 wide documents of 13-40 sibling positioned contexts with tied unsorted z-index values (optionally under a common context); unique background/border/outline colours, texts and translations; " +
 		"the sequence of fills, DrawText calls and group brackets (opacity group, transform scope, overflow clip) is compared with the Lean model of stacking.go run on the implementation's laid-out tree (corr) and with the Lean Appendix E spec (judge); corpus cases first; " +
 		"non-trivial = at least one box makes a stacking context, is positioned or floats; distinct by document text"
 	render.Quiet()
